@@ -49,8 +49,19 @@ def scratch():
 def ensure_tools():
     if not os.path.exists(CFACTS):
         raise AnalysisBroken("cfacts not built: run MANIFEST.setup_cmd (./setup.sh)")
-    if not os.path.exists(os.path.join(BUILD, "compile_commands.json")):
+    db = os.path.join(BUILD, "compile_commands.json")
+    if not os.path.exists(db):
         raise AnalysisBroken("%s/compile_commands.json missing: run ./setup.sh" % BUILD)
+    # the unit list and the -D flags come from the build description of the *current* tree: re-configure
+    # (no compilation) when CMakeLists.txt is newer than the compilation database
+    cml = os.path.join(REPO, "CMakeLists.txt")
+    try:
+        if os.path.exists(cml) and os.path.getmtime(cml) > os.path.getmtime(db):
+            subprocess.run(["cmake", "-S", REPO, "-B", BUILD], stdout=subprocess.DEVNULL, stderr=subprocess.DEVNULL,
+                           timeout=300)
+            os.utime(db, None) if os.path.exists(db) else None
+    except (OSError, subprocess.SubprocessError):
+        pass
 
 
 def db_entries():
